@@ -828,6 +828,35 @@ impl Gen {
         self.drain(d, true);
     }
 
+    /// half-close: one side shuts its write direction down ("request sent") while the peer's data for it is buffered,
+    /// in flight or still to be written; everything the peer writes must still arrive
+    fn fam_half_close(&mut self) {
+        self.init();
+        let d = self.rng.gen_range(0..2); // the direction that is shut down; the other one keeps flowing
+        let o = 1 - d;
+        let before = *[0u64, 1, 5000, 70_000, 140_000].choose(&mut self.rng).unwrap();
+        if self.rng.gen_bool(0.7) {
+            let req = self.size();
+            self.write(d, req, vec![json!(BIG), json!(BIG)]);
+        }
+        if before > 0 {
+            self.write_all(o, before);
+            self.flush(o, vec![json!(BIG), json!(BIG), json!(BIG)], "ok");
+            // sometimes part of it has been read already (plaintext left in the payload buffer, ciphertext in the frame buffer)
+            if self.rng.gen_bool(0.6) {
+                let cap = *[1u64, 4, 4999, 65519].choose(&mut self.rng).unwrap();
+                self.ops.push(json!({"op": "read", "dir": o, "cap": cap, "tr": [BIG, BIG, BIG]}));
+            }
+        }
+        self.shutdown(d, vec![json!(BIG), json!(BIG), json!(BIG)], "ok");
+        if self.rng.gen_bool(0.6) {
+            let after = *[1u64, 300, 66_000].choose(&mut self.rng).unwrap();
+            self.write_all(o, after);
+        }
+        self.drain(o, true);
+        self.drain(d, true);
+    }
+
     /// benign random traffic in both directions
     fn fam_random(&mut self) {
         self.init();
@@ -1095,6 +1124,9 @@ impl Prop for C13 {
         for _ in 0..6 {
             g.fam_alignment();
         }
+        for _ in 0..10 {
+            g.fam_half_close();
+        }
         if opts.thorough {
             g.fam_every_position(true);
         }
@@ -1106,6 +1138,7 @@ impl Prop for C13 {
                 10..=11 => g.fam_partial_flush(),
                 12 => g.fam_errors(),
                 13 if i % 40 == 13 => g.fam_alignment(),
+                14 if i % 40 == 14 => g.fam_half_close(),
                 _ => {
                     let t = g.random_tamper();
                     let nframes = g.rng.gen_range(1..=3);
